@@ -2,10 +2,11 @@
 (* C37 T->I: tabulate the reference into IOEnv.VERIF_OUT, in the factored form
        RefMatch(p, path)  ==  \E v \in Expand(p) : PPM(v, path)
    VERIF_MODE = "expand"  for every pattern (AST) of the domain file: NumVariants, Accepted, and
-                          Expand (a pattern marked big or over the limit: count only)
+                          Expand (a pattern marked big or over the limit: count only); and for
+                          every pattern string of Domain.strings: Valid  (one JVM start for both)
    VERIF_MODE = "glob"    for every brace-less pattern string of Domain.strings (the distinct
                           expansions found by "expand"): the indices of the paths it matches (PPM)
-   VERIF_MODE = "valid"   for every pattern string of Domain.strings: Valid *)
+                          *)
 EXTENDS PathPattern
 
 ExpandRow(pr) ==
@@ -13,16 +14,14 @@ ExpandRow(pr) ==
         cnt == CountN(n)
     IN  [id |-> pr.id, n |-> cnt, ok |-> cnt <= Limit,
          ex |-> IF pr.big \/ cnt > Limit THEN <<>> ELSE ExpandN(n)]
-ExpandTable == [rows |-> Force([i \in 1..NP |-> ExpandRow(Pats[i])])]
+ExpandTable == [rows |-> Force([i \in 1..NP |-> ExpandRow(Pats[i])]),
+                valid |-> Force([i \in 1..Len(Domain.strings) |-> Valid(Domain.strings[i])])]
 
 MatchIdx(v) == SelectSeq(PathIdx, LAMBDA j : PPM(v, Paths[j]))
 GlobTable == [npaths |-> Len(Paths), rows |-> Force([i \in 1..Len(Domain.strings) |-> MatchIdx(Domain.strings[i])])]
 
-ValidTable == [valid |-> Force([i \in 1..Len(Domain.strings) |-> Valid(Domain.strings[i])])]
-
 TInit == x = 1
 ASSUME JsonSerialize(IOEnv.VERIF_OUT,
                      CASE IOEnv.VERIF_MODE = "expand" -> ExpandTable
-                       [] IOEnv.VERIF_MODE = "glob" -> GlobTable
-                       [] IOEnv.VERIF_MODE = "valid" -> ValidTable)
+                       [] IOEnv.VERIF_MODE = "glob" -> GlobTable)
 =============================================================================
